@@ -15,6 +15,7 @@ import itertools
 
 from mc import alpha
 from mc.env import guard
+from mc import pasts
 from tracklib.core.track import Track
 from tracklib.core.obs import Obs
 from tracklib.core.obs_coords import ENUCoords
@@ -53,9 +54,12 @@ WIDTHS = [1, 1.5, 2, 3]
 WINDOW_WIDTHS = [1, 1.25, 1.5, 2, 2.5, 3, 4, 5.5, 10]
 ENUM_MAXLEN = {"quick": 6, "thorough": 8}
 ENUM_MAXLEN_KERNEL = {"quick": 5, "thorough": 6}
-PATHS = ["feature", "same-kernel-object-again", "filter_seq-xyz", "filter_seq-feature", "smooth"]
+PATHS = ["feature", "same-kernel-object-again", "filter_seq-xyz", "filter_seq-feature", "smooth", "filter_seq-xyz-on-a-track-with-a-past"]
+PASTS_XYZ = ["rebuilt-from-featured-observations", "sum-of-halves-first-half-featured", "featured-then-removed", "extracted",
+             "sum-of-halves-both-featured", "copied"]
 
 OBLIGATIONS = {
+    "path_track_with_a_past": "filter_seq on the coordinates of a track rebuilt from featured observations / concatenated from halves / extracted / copied",
     "nan_in_window": "a filtered (not copied) index has a NaN inside its window",
     "nan_at_centre": "a filtered index is itself NaN (the output is the mean of its neighbours)",
     "nan_copied_at_boundary": "a NaN is copied by the boundary rule",
@@ -249,6 +253,14 @@ def run_paths(variant, spec, boundary, sig):
         res["filter_seq-feature"] = ("malformed", "filter_seq returned %s" % type(r).__name__)
     else:
         res["filter_seq-feature"] = _feature_read(r, "s", n, sig)
+    # ---- the coordinates of a track that went through another part of the library first (mc/pasts.py) ------------
+    if n >= 2:
+        past = PASTS_XYZ[(n + int(abs(sig[0]) * 4) + int(abs(sig[-1]) * 2 if sig[-1] == sig[-1] else 1)) % len(PASTS_XYZ)] \
+            if sig[0] == sig[0] else PASTS_XYZ[n % len(PASTS_XYZ)]
+        st5, t5 = guard(pasts.make, lambda: _track(variant, n, xs=sig, ys=rev, zs=neg), past)
+        if st5 == "ok" and t5.size() == n:
+            k5 = make_kernel(spec, boundary)
+            res[PATHS[5]] = _xyz(guard(lambda: flt.filter_seq(t5, k5, flt.FILTER_XYZ)), None, n, sig, rev, neg)
     # ---- Track.smooth = Gaussian kernel that does not filter the boundaries ----------------------------
     if spec["type"] == "GaussianKernel" and not boundary:
         t4 = _track(variant, n, xs=sig, ys=rev, zs=neg)
@@ -370,6 +382,8 @@ def check_filter(variant, spec, boundary, sig, ctx):
         ctx.oblige("monotone_signal")
     if "smooth" in res:
         ctx.oblige("path_smooth")
+    if PATHS[5] in res:
+        ctx.oblige("path_track_with_a_past")
     ctx.oblige("path_filter_seq_xyz")
     ctx.oblige("path_filter_seq_feature")
     if spec["type"] == "DiracKernel":
